@@ -719,6 +719,28 @@ def C03_function_identifiers_unique():
     return _cmp(f, [(2, 3), (2, 5)], [a, b])
 
 
+def C07_sharing_family():
+    """call sites may share one function definition only if they compute the same function: instances with
+    identical weights but different static configuration (closure identity, python scalar), different keyword
+    arguments, different input shapes"""
+    jax, jnp = _jax()
+    from witnesses import _fnmods as F
+    x = np.asarray([[1.0, -2.0, 3.0, -4.0], [-0.5, 0.25, -1.5, 2.0]], dtype=np.float32)
+    a, b = F.UniqueBlock(F.leaky(0.01)), F.UniqueBlock(F.leaky(0.9))
+    c, d = F.UniqueBlock(F.leaky(0.5), scale=1.0), F.UniqueBlock(F.leaky(0.5), scale=3.0)
+    cases = [
+        ("unique=True instances differing only by a closure", lambda x: a(x) - b(x), [(2, 4)], [x]),
+        ("unique=True instances differing only by a python scalar attribute", lambda x: c(x) + d(x), [(2, 4)], [x]),
+        ("same function with different keyword arguments", lambda x: F.scaled(x, k=2.0) + F.scaled(x, k=5.0), [(2, 4)], [x]),
+        ("same function on different input shapes", lambda x, y: jnp.sum(F.scaled(x)) + jnp.sum(F.scaled(y)), [(2, 4), (3,)], [x, np.ones(3, np.float32)]),
+    ]
+    for what, f, spec, arrs in cases:
+        ok, detail = _cmp(f, spec, arrs)
+        if not ok:
+            return False, f"{what}: {detail}"
+    return True, f"{len(cases)} sharing scenarios agree with JAX"
+
+
 def C05_output_order_family():
     """results (a4d, b4d, c1d, d4d) under every ordered subset of outputs_as_nchw over the 4-D leaves:
     output k must be leaf k (NCHW-transposed iff flagged)."""
@@ -1005,6 +1027,7 @@ ALL = {
     "C05_output_order_family": C05_output_order_family,
     "C04_dimexpr_family": C04_dimexpr_family,
     "C02_table_family": C02_table_family,
+    "C07_sharing_family": C07_sharing_family,
     "C03_function_identifiers_unique": C03_function_identifiers_unique,
     "C09_function_body_constants_follow_precision": C09_function_body_constants_follow_precision,
     "D10_cumprod_lax": D10_cumprod_lax, "D10_cumprod_jnp": D10_cumprod_jnp, "D10_bitcast": D10_bitcast,
